@@ -111,7 +111,7 @@ class DocstringParser(AbstractDocstringParser):
 
         # For numpy, if we have a constructor we have to check both, the class and then the constructor (see issue
         # https://github.com/Safe-DS/Library-Analyzer/issues/10)
-        if self.parser == Parser.numpy and len(matching_parameters) == 0 and function_name == "__init__":
+        if len(matching_parameters) == 0 and function_name == "__init__":
             # Get constructor docstring & find matching parameter docstrings
             constructor_docstring = self.__get_cached_docstring(function_qname)
             if constructor_docstring is not None:
